@@ -152,6 +152,7 @@ def rule_distance_whole_state(ctx: Ctx) -> None:
 
 
 KNOCKOUTS = [
+    Knockout("uhlmann-trace-not-squared", DMF, sub_once("        f = np.real(np.trace(rho_final)) ** 2\n", "        f = np.real(np.trace(rho_final))\n"), "dist.shape", "Uhlmann"),
     Knockout("trace-distance-branch-by-branch", "graphiq/metrics.py", sub_once("            else:\n                tmp_state = state.copy()\n                tmp_state.convert_representation(\"dm\")\n                trace_distance = dmf.trace_distance(", "            elif hasattr(state.rep_data, \"mixture\"):\n                trace_distance = sum(p_i * dmf.trace_distance(self.target.rep_data.data, t_i) for p_i, t_i in state.rep_data.mixture)\n            else:\n                tmp_state = state.copy()\n                tmp_state.convert_representation(\"dm\")\n                trace_distance = dmf.trace_distance("), "dist.whole-state", "per-branch"),
     Knockout("branch-overlap-not-squared", "graphiq/metrics.py", sub_once("[p_i * sfm.fidelity(tableau, t_i) for p_i, t_i in rep_data.mixture]", "[p_i * sfm.inner_product(tableau, t_i) for p_i, t_i in rep_data.mixture]"), "weight.fidelity", "not squared"),
     Knockout("infidelity-chain-tests-unconverted-state", "graphiq/metrics.py", sub_once("            elif isinstance(rep_data, MixedStabilizer):", "            elif isinstance(state.rep_data, MixedStabilizer):"), "chain.subject-drift", "Infidelity.evaluate"),
